@@ -42,3 +42,135 @@ Example C01_example :
         [OReserve (B "New") (B "r"); OAdd (B "New") (B "a"); OAdd (B "New") (B "b"); OGet (B "a"); OID (B "New__")])
   = [VBool true; VName (B "New_"); VName (B "New__"); VName (B "New_"); VName (B "b")].
 Proof. vm_compute. reflexivity. Qed.
+
+(* ---------------------------------------------------------------------------------------------
+   The name tables of the Go backend (generator/golang/scope_internal.go), model Gen/Scope.v.
+   [scope_run identify lower_first ft f] performs, for a resolved file f, the Add / MustReserve
+   operations of installNames / buildService / buildFunction / buildStructLike / buildEnum /
+   buildTypedef / buildConstant on the file-level table, the per-struct, per-service,
+   per-function and per-enum tables, and returns every operation with the name that came back
+   ([SOk es], oldest first) or [SErr EReserve] when a MustReserve found its name occupied.
+   The naming style ([identify]) and LowerFirstRune ([lower_first]) are arbitrary functions: the
+   theorems hold for every naming style, every feature set and every file. *)
+From Coq Require Import ZArith.
+From Verif Require Import Idl.Ast Gen.Scope Gen.ScopeFacts.
+Close Scope string_scope.
+
+(* the table the model consults at every step is the one pkg/namespace builds from the recorded
+   operation sequence: the theorems below are statements about run_ops sequences *)
+Theorem C01_scope_tables_are_run_ops :
+  forall t tr, ns_of t tr = table_after t (chron tr).
+Proof. exact ns_of_table_after. Qed.
+Print Assumptions C01_scope_tables_are_run_ops.
+
+(* two operations on one table that came back with the same name were made for the same id, and
+   the later one is an Add: no side condition *)
+Theorem C01_table_same_name :
+  forall identify lower_first ft f es a e1 b e2 c,
+  scope_run identify lower_first ft f = SOk es ->
+  es = a ++ e1 :: b ++ e2 :: c ->
+  e_table e1 = e_table e2 -> e_name e1 = e_name e2 ->
+  e_id e1 = e_id e2 /\ is_add (e_op e2) = true.
+Proof. exact table_same_name. Qed.
+Print Assumptions C01_table_same_name.
+
+(* package-level identifiers that go through the file table (type names, New<T>,
+   fieldIDToName_<T>, <Svc>Client, <Svc>Processor, <Svc><Func>Args/Result, enums, typedefs,
+   constants) are pairwise distinct when the fold raises no reserve failure and the ids are *)
+Theorem C01_globals_distinct :
+  forall identify lower_first ft f es,
+  scope_run identify lower_first ft f = SOk es ->
+  NoDup (map e_id (entries_of TGlobals es)) -> NoDup (map e_name (entries_of TGlobals es)).
+Proof. exact globals_distinct. Qed.
+Print Assumptions C01_globals_distinct.
+
+(* members of a struct-like (reserved methods, Get/Set/IsSet/ReadFieldN/writeFieldN/
+   FieldNDeepEqual, field names), user-defined or synthesized args / result *)
+Theorem C01_struct_members_distinct :
+  forall identify lower_first ft f es t,
+  scope_run identify lower_first ft f = SOk es ->
+  (exists k, t = TStruct k) \/ (exists i j r, t = TSynth i j r) ->
+  NoDup (map e_id (entries_of t es)) -> NoDup (map e_name (entries_of t es)).
+Proof. exact struct_members_distinct. Qed.
+Print Assumptions C01_struct_members_distinct.
+
+(* any table (also the per-service method table and the per-enum value table) *)
+Theorem C01_table_distinct :
+  forall identify lower_first ft f es t,
+  scope_run identify lower_first ft f = SOk es ->
+  NoDup (map e_id (entries_of t es)) -> NoDup (map e_name (entries_of t es)).
+Proof. exact table_distinct. Qed.
+Print Assumptions C01_table_distinct.
+
+(* receiver, locals, parameters, throws of a method: distinct, and no parameter / throw name is
+   a Go keyword *)
+Theorem C01_params_distinct_and_not_keywords :
+  forall identify lower_first ft f es i j,
+  scope_run identify lower_first ft f = SOk es ->
+  (NoDup (map e_id (entries_of (TFunction i j) es)) -> NoDup (map e_name (entries_of (TFunction i j) es))) /\
+  (forall e, In e es -> (kind_eqb (e_kind e) KParam || kind_eqb (e_kind e) KThrow) = true -> is_keyword (e_name e) = false).
+Proof. exact params_distinct_and_not_keywords. Qed.
+Print Assumptions C01_params_distinct_and_not_keywords.
+
+(* a reserved name (New<T>, fieldIDToName_<T>, <Svc>Client, <Svc>Processor, Read, Write, p, err,
+   ctx, ...) differs from every name recorded earlier in its table: no side condition *)
+Theorem C01_reserved_name_fresh :
+  forall identify lower_first ft f es a e1 b e2 c,
+  scope_run identify lower_first ft f = SOk es ->
+  es = a ++ e1 :: b ++ e2 :: c -> e_table e1 = e_table e2 ->
+  is_add (e_op e2) = false -> e_name e1 <> e_name e2.
+Proof. exact reserved_name_fresh. Qed.
+Print Assumptions C01_reserved_name_fresh.
+
+(* MustReserve on an occupied name is the error result, an error is never swallowed, hence
+   acceptance means every MustReserve found its name free in the table built so far *)
+Theorem C01_reserve_fails_iff :
+  forall t ow k name id tr,
+  m_reserve t ow k name id tr = SErr EReserve <-> lookup name (name2id (ns_of t tr)) <> None.
+Proof. exact reserve_fails_iff. Qed.
+Print Assumptions C01_reserve_fails_iff.
+
+Theorem C01_error_propagates :
+  forall A B (m : M A) (g : A -> M B) tr e, m tr = SErr e -> bind m g tr = SErr e.
+Proof. exact @error_propagates. Qed.
+Print Assumptions C01_error_propagates.
+
+Theorem C01_reserve_failure_is_error :
+  forall identify lower_first ft f es a e c name id,
+  scope_run identify lower_first ft f = SOk es ->
+  es = a ++ e :: c -> e_op e = OReserve name id ->
+  lookup name (name2id (table_after (e_table e) (map (fun x => (e_table x, e_op x)) a))) = None /\ e_name e = name.
+Proof. exact reserve_failure_is_error. Qed.
+Print Assumptions C01_reserve_failure_is_error.
+
+(* non-vacuity.  With the identity as naming style: a struct with fields get_x / x keeps field
+   and getter apart; "struct NewX" before "struct X" is a reserve failure (New ++ X is taken). *)
+Open Scope string_scope.
+Definition C01_ft0 := Features false false false false false.
+Definition C01_i32 := Ty (B "i32") None None [] [] CatI32 None None.
+Definition C01_file (structs : list struct_like) (services : list service) : file :=
+  File (B "a.thrift") [] [] [] [] [] [] structs [] [] services None.
+Definition C01_s1 := StructLike SKStruct (B "S")
+  [Field 1%Z (B "x") ReqOptional C01_i32 None [] []; Field 2%Z (B "Getx") ReqDefault C01_i32 None [] []] [] [].
+
+Example C01_scope_example_members :
+  match scope_run (fun n => n) (fun n => n) C01_ft0 (C01_file [C01_s1] []) with
+  | SOk es => map e_name (entries_of (TStruct 0) es)
+  | SErr _ => []
+  end = [B "Read"; B "Write"; B "String"; B "Getx"; B "IsSetx"; B "ReadField1"; B "writeField1";
+         B "GetGetx"; B "ReadField2"; B "writeField2"; B "x"; B "Getx_"].
+Proof. vm_compute. reflexivity. Qed.
+
+Example C01_scope_example_reserve_failure :
+  scope_ops (fun n => n) (fun n => n) C01_ft0
+    (C01_file [StructLike SKStruct (B "NewX") [] [] []; StructLike SKStruct (B "X") [] [] []] []) = SErr EReserve.
+Proof. vm_compute. reflexivity. Qed.
+
+Example C01_scope_example_keyword_param :
+  match scope_run (fun n => n) (fun n => n) C01_ft0
+        (C01_file [] [Service (B "Svc") [] [Function (B "f") false true (ty_named (B "void"))
+                        [Field 1%Z (B "type") ReqDefault C01_i32 None [] []; Field 2%Z (B "p") ReqDefault C01_i32 None [] []] [] [] []] [] None []]) with
+  | SOk es => map e_name (entries_of (TFunction 0 0) es)
+  | SErr _ => []
+  end = [B "p"; B "err"; B "ctx"; B "_type"; B "p_"].
+Proof. vm_compute. reflexivity. Qed.
